@@ -402,6 +402,8 @@ type n =
 
 val compose : ('a2 -> 'a3) -> ('a1 -> 'a2) -> 'a1 -> 'a3
 
+val flip : ('a1 -> 'a2 -> 'a3) -> 'a2 -> 'a1 -> 'a3
+
 val eqb : bool -> bool -> bool
 
 type reflect =
@@ -1076,9 +1078,20 @@ type 'a empty = 'a
 
 val empty0 : 'a1 empty -> 'a1
 
+type 'a union = 'a -> 'a -> 'a
+
+val union0 : 'a1 union -> 'a1 -> 'a1 -> 'a1
+
+type 'a difference = 'a -> 'a -> 'a
+
+val difference0 : 'a1 difference -> 'a1 -> 'a1 -> 'a1
+
 type ('a, 'b) singleton = 'a -> 'b
 
 val singleton0 : ('a1, 'a2) singleton -> 'a1 -> 'a2
+
+val list_to_set :
+  ('a1, 'a2) singleton -> 'a2 empty -> 'a2 union -> 'a1 list -> 'a2
 
 type ('a, 'b) filter0 = __ -> ('a -> decision) -> 'b -> 'b
 
@@ -1122,6 +1135,22 @@ val partial_alter :
   ('a1, 'a2, 'a3) partialAlter -> ('a2 option -> 'a2 option) -> 'a1 -> 'a3 ->
   'a3
 
+type 'm merge =
+  __ -> __ -> __ -> (__ option -> __ option -> __ option) -> 'm -> 'm -> 'm
+
+val merge0 :
+  'a1 merge -> ('a2 option -> 'a3 option -> 'a4 option) -> 'a1 -> 'a1 -> 'a1
+
+type ('a, 'm) unionWith = ('a -> 'a -> 'a option) -> 'm -> 'm -> 'm
+
+val union_with :
+  ('a1, 'a2) unionWith -> ('a1 -> 'a1 -> 'a1 option) -> 'a2 -> 'a2 -> 'a2
+
+type ('a, 'm) differenceWith = ('a -> 'a -> 'a option) -> 'm -> 'm -> 'm
+
+val difference_with :
+  ('a1, 'a2) differenceWith -> ('a1 -> 'a1 -> 'a1 option) -> 'a2 -> 'a2 -> 'a2
+
 type ('a, 'c) elements = 'c -> 'a list
 
 val elements0 : ('a1, 'a2) elements -> 'a2 -> 'a1 list
@@ -1136,11 +1165,17 @@ val false_dec : decision
 
 val is_true_dec : bool -> decision
 
+val not_dec : decision -> decision
+
+val or_dec : decision -> decision -> decision
+
 val unit_eq_dec : (unit, unit) relDecision
 
 val prod_eq_dec :
   ('a1, 'a1) relDecision -> ('a2, 'a2) relDecision -> ('a1 * 'a2, 'a1 * 'a2)
   relDecision
+
+val uncurry_dec : ('a1 -> 'a2 -> decision) -> ('a1 * 'a2) -> decision
 
 val bool_decide : decision -> bool
 
@@ -1156,6 +1191,15 @@ val option_ret : __ -> __ option
 val option_bind : (__ -> __ option) -> __ option -> __ option
 
 val option_fmap : (__ -> __) -> __ option -> __ option
+
+val option_union_with : ('a1, 'a1 option) unionWith
+
+val option_difference_with : ('a1, 'a1 option) differenceWith
+
+module Coq0_Nat :
+ sig
+  val eq_dec : (nat, nat) relDecision
+ end
 
 module Coq0_Pos :
  sig
@@ -1186,6 +1230,8 @@ val mapM : 'a1 mBind -> 'a1 mRet -> ('a2 -> 'a1) -> 'a2 list -> 'a1
 
 val imap : (nat -> 'a1 -> 'a2) -> 'a1 list -> 'a2 list
 
+val elem_of_list_dec : ('a1, 'a1) relDecision -> ('a1, 'a1 list) relDecision
+
 val positives_flatten_go : positive list -> positive -> positive
 
 val positives_flatten : positive list -> positive
@@ -1198,6 +1244,10 @@ val positives_unflatten : positive -> positive list option
 val list_eq_dec0 : ('a1, 'a1) relDecision -> ('a1 list, 'a1 list) relDecision
 
 val list_eq_nil_dec : 'a1 list -> decision
+
+val forall_Exists_dec : ('a1 -> bool) -> 'a1 list -> bool
+
+val forall_dec : ('a1 -> decision) -> 'a1 list -> decision
 
 type 'a countable = { encode : ('a -> positive);
                       decode : (positive -> 'a option) }
@@ -1225,11 +1275,17 @@ val list_countable :
 
 val n_countable : n countable
 
+val nat_countable : nat countable
+
 val set_size : ('a1, 'a2) elements -> 'a2 size
 
 type ('k, 'a, 'm) finMapToList = 'm -> ('k * 'a) list
 
 val map_to_list : ('a1, 'a2, 'a3) finMapToList -> 'a3 -> ('a1 * 'a2) list
+
+val diag_None :
+  ('a1 option -> 'a2 option -> 'a3 option) -> 'a1 option -> 'a2 option -> 'a3
+  option
 
 val map_insert : ('a1, 'a2, 'a3) partialAlter -> ('a1, 'a2, 'a3) insert
 
@@ -1243,6 +1299,14 @@ val list_to_map :
 
 val map_size : ('a1, 'a2, 'a3) finMapToList -> 'a3 size
 
+val map_union_with : 'a1 merge -> ('a2, 'a1) unionWith
+
+val map_difference_with : 'a1 merge -> ('a2, 'a1) differenceWith
+
+val map_union : 'a1 merge -> 'a1 union
+
+val map_difference : 'a1 merge -> 'a1 difference
+
 val map_fold :
   ('a1, 'a2, 'a3) finMapToList -> ('a1 -> 'a2 -> 'a4 -> 'a4) -> 'a4 -> 'a3 ->
   'a4
@@ -1251,6 +1315,12 @@ val map_filter :
   ('a1, 'a2, 'a3) finMapToList -> ('a1, 'a2, 'a3) insert -> 'a3 empty ->
   (('a1 * 'a2) -> decision) -> 'a3 -> 'a3
 
+val map_Forall_dec :
+  'a2 fMap -> (__ -> ('a1, __, 'a2) lookup) -> (__ -> 'a2 empty) -> (__ ->
+  ('a1, __, 'a2) partialAlter) -> 'a2 oMap -> 'a2 merge -> (__ -> ('a1, __,
+  'a2) finMapToList) -> ('a1, 'a1) relDecision -> ('a1 -> 'a3 -> decision) ->
+  'a2 -> decision
+
 type 'munit mapset' = { mapset_car : 'munit }
 
 val mapset_empty : (__ -> 'a1 empty) -> 'a1 mapset' empty
@@ -1258,6 +1328,10 @@ val mapset_empty : (__ -> 'a1 empty) -> 'a1 mapset' empty
 val mapset_singleton :
   (__ -> 'a2 empty) -> (__ -> ('a1, __, 'a2) partialAlter) -> ('a1, 'a2
   mapset') singleton
+
+val mapset_union : 'a1 merge -> 'a1 mapset' union
+
+val mapset_difference : 'a1 merge -> 'a1 mapset' difference
 
 val mapset_elements :
   (__ -> ('a1, __, 'a2) finMapToList) -> ('a1, 'a2 mapset') elements
@@ -1283,8 +1357,16 @@ val psingleton_raw : positive -> 'a1 -> 'a1 pmap_raw
 val ppartial_alter_raw :
   ('a1 option -> 'a1 option) -> positive -> 'a1 pmap_raw -> 'a1 pmap_raw
 
+val pfmap_raw : ('a1 -> 'a2) -> 'a1 pmap_raw -> 'a2 pmap_raw
+
 val pto_list_raw :
   positive -> 'a1 pmap_raw -> (positive * 'a1) list -> (positive * 'a1) list
+
+val pomap_raw : ('a1 -> 'a2 option) -> 'a1 pmap_raw -> 'a2 pmap_raw
+
+val pmerge_raw :
+  ('a1 option -> 'a2 option -> 'a3 option) -> 'a1 pmap_raw -> 'a2 pmap_raw ->
+  'a3 pmap_raw
 
 type 'a pmap = { pmap_car : 'a pmap_raw }
 
@@ -1296,7 +1378,14 @@ val plookup : (positive, 'a1, 'a1 pmap) lookup
 
 val ppartial_alter : (positive, 'a1, 'a1 pmap) partialAlter
 
+val pfmap : (__ -> __) -> __ pmap -> __ pmap
+
 val pto_list : (positive, 'a1, 'a1 pmap) finMapToList
+
+val pomap : (__ -> __ option) -> __ pmap -> __ pmap
+
+val pmerge :
+  (__ option -> __ option -> __ option) -> __ pmap -> __ pmap -> __ pmap
 
 type ('k, 'a) gmap = { gmap_car : 'a pmap }
 
@@ -1315,6 +1404,18 @@ val gmap_partial_alter :
   ('a1, 'a1) relDecision -> 'a1 countable -> ('a1, 'a2, ('a1, 'a2) gmap)
   partialAlter
 
+val gmap_fmap :
+  ('a1, 'a1) relDecision -> 'a1 countable -> (__ -> __) -> ('a1, __) gmap ->
+  ('a1, __) gmap
+
+val gmap_omap :
+  ('a1, 'a1) relDecision -> 'a1 countable -> (__ -> __ option) -> ('a1, __)
+  gmap -> ('a1, __) gmap
+
+val gmap_merge :
+  ('a1, 'a1) relDecision -> 'a1 countable -> (__ option -> __ option -> __
+  option) -> ('a1, __) gmap -> ('a1, __) gmap -> ('a1, __) gmap
+
 val gmap_to_list :
   ('a1, 'a1) relDecision -> 'a1 countable -> ('a1, 'a2, ('a1, 'a2) gmap)
   finMapToList
@@ -1325,6 +1426,11 @@ val gset_empty : ('a1, 'a1) relDecision -> 'a1 countable -> 'a1 gset empty
 
 val gset_singleton :
   ('a1, 'a1) relDecision -> 'a1 countable -> ('a1, 'a1 gset) singleton
+
+val gset_union : ('a1, 'a1) relDecision -> 'a1 countable -> 'a1 gset union
+
+val gset_difference :
+  ('a1, 'a1) relDecision -> 'a1 countable -> 'a1 gset difference
 
 val gset_elements :
   ('a1, 'a1) relDecision -> 'a1 countable -> ('a1, 'a1 gset) elements
@@ -1887,6 +1993,41 @@ val page_readdirplus :
   ('a1 -> n) -> ('a1 -> n) -> 'a1 dir -> nat -> n -> n -> ((nat * 'a1)
   list * bool) * nat
 
+type dcache = { dc_map : (name, n * nat) gmap; dc_last : nat }
+
+type dstate = { d_slots : (name * n) option list; d_cache : dcache option }
+
+val d_slots : dstate -> (name * n) option list
+
+val dM_MAXNAMELEN : n
+
+val cache_of :
+  (name * n) option list -> nat -> (name, n * nat) gmap -> (name, n * nat)
+  gmap
+
+val mk_dcache : (name * n) option list -> dcache
+
+val ensure : dstate -> dstate * dcache
+
+val dm_lookup : dstate -> name -> dstate * (n * nat) option
+
+val first_free : (name * n) option list -> nat -> nat -> nat option
+
+val upd_nth : 'a1 list -> nat -> 'a1 -> 'a1 list
+
+val add_slot : (name * n) option list -> nat -> nat
+
+val write_slot :
+  (name * n) option list -> nat -> (name * n) option -> (name * n) option list
+
+val add_name : dstate -> n -> name -> bool -> dstate * bool
+
+val rem_name : dstate -> name -> dstate * bool
+
+val dm_addx : dstate -> n -> name -> bool -> dstate * bool option
+
+val drop_cache : dstate -> dstate
+
 val slot_eqb : (name * n) -> (name * n) -> bool
 
 val has_entry : (name * n) option list -> (name * n) -> bool
@@ -1896,6 +2037,11 @@ val stays :
   -> bool
 
 val step_ok_b : (name * n) option list -> (name * n) option list -> bool
+
+val dm_make :
+  (name * n) option list -> (nat * (name * (n * nat)) list) option -> dstate
+
+val dm_cache_list : dstate -> (nat * (name * (n * nat)) list) option
 
 type oattrs = { oa_ftype : n; oa_size : n; oa_fileid : n; oa_atime : 
                 (n * n); oa_mtime : (n * n); oa_nlink : n }
@@ -2052,3 +2198,34 @@ val nodupb : nat list -> bool
 val is_perm : nat -> nat list -> bool
 
 val lin_check : params -> hop list -> afs -> (afs -> bool) -> nat list -> bool
+
+type atxn = { t_al : n list; t_fr : n list }
+
+type astate = { a_mem : n gset; a_disk : n gset; a_txns : (nat, atxn) gmap }
+
+type aop =
+| ABegin of nat
+| AAlloc of nat * n
+| AFree of nat * n
+| ACommit of nat
+| AAbort of nat
+
+val set_bits0 : n gset -> n list -> n gset
+
+val clear_bits : n gset -> n list -> n gset
+
+val pre_commit : n gset -> atxn -> n gset
+
+val release : n gset -> n list -> n gset
+
+val nobody_freed_dec : (nat, atxn) gmap -> n -> decision
+
+val astep : astate -> aop -> astate option
+
+val a_init : n gset -> astate
+
+val a_init_list : n list -> astate
+
+val a_disk_list : astate -> n list
+
+val a_mem_size : astate -> nat
